@@ -7,7 +7,7 @@
    acceptor demands it of every ESbatch (guard valid_batch), so every impl trace is checked against it;
    Props/C07.v proves it of the batching function and SystemBridge.v connects the two. *)
 From Coq Require Import List ZArith NArith Bool.
-From Jade Require Import Base System SystemMonitors SystemProofs SystemInv.
+From Jade Require Import Base System SystemMonitors SystemProofs SystemInv SystemBridge.
 From Jade.Props Require Import SysExamples.
 Import ListNotations.
 Open Scope N_scope.
@@ -37,6 +37,24 @@ Proof.
     + destruct nproc as [a|], (gc_nproc (group sc g)) as [b|]; cbn in Np; try discriminate; [apply N.eqb_eq in Np; subst; reflexivity|reflexivity].
 Qed.
 Print Assumptions c07_every_submitted_batch_is_valid.
+
+(* Layer A -> Layer B: what the proved model of the batching code produces passes the acceptor's guards *)
+Theorem c07_make_batch_passes_the_acceptor : forall sc r g p avail, view_ok sc r g avail -> params_ok sc g p ->
+  B.mb_batch (B.make_batch p avail) <> [] ->
+  valid_batch sc r g (payload (B.mb_batch (B.make_batch p avail))) = true.
+Proof. exact make_batch_valid. Qed.
+Print Assumptions c07_make_batch_passes_the_acceptor.
+
+Theorem c07_round_passes_the_maximality_guard : forall sc (r0 r1 : session) depth groups ns oks idx rr,
+  sc_max_nodes sc = Some depth -> NoDup (B.names ns) -> NoDup (map B.g_name groups) ->
+  (forall j, In j (all_jobs sc) -> r_st r0 j = NS ->
+     exists x, In x ns /\ B.jname x = j /\ B.jblocked x = r_bl r0 j /\ exists g, In g groups /\ B.jgroup x = B.g_name g) ->
+  B.submit_round depth (N.of_nat (length (r_out r0))) idx oks groups ns = B.ROk rr ->
+  r_st r1 = r_st r0 -> r_bl r1 = r_bl r0 ->
+  r_placed r1 = B.names (BP.subs_jobs (B.r_subs rr)) -> N.of_nat (length (r_out r1)) = B.r_out rr ->
+  round_maximal sc r1 = true.
+Proof. exact round_maximal_of_submit_round. Qed.
+Print Assumptions c07_round_passes_the_maximality_guard.
 
 Example c07_system_nonvacuous : accepted ex_sc ex_tr = true /\ existsb is_sbatch ex_tr = true.
 Proof. vm_compute. auto. Qed.
